@@ -243,7 +243,8 @@ def fam_growth(tier, seed, tag, nruns, conc=False, faults=False):
             # sequential fill up to a few clusters before the boundary, then small concurrent writers
             k = 0
             filled = 0
-            tight = i % 2 == 1 and mode != 3
+            tight = (i % 2 == 1 and mode != 3) or (mode == 2 and i % 8 in (2, 6))
+            exact = mode == 2 and tight
             if tight:
                 order = list(range(vc))          # the free guest clusters stay adjacent
             while filled < rbn - 12 and mode != 3 and not tight:
@@ -260,6 +261,11 @@ def fam_growth(tier, seed, tag, nruns, conc=False, faults=False):
                 # uses up the tail of this slice, the whole next slice and goes on into the refblock that does not exist yet
                 spr = 64 if rbn > 64 else 0                       # clusters per 512-byte refblock slice (64-bit refcounts)
                 stop = rbn - spr - rng.choice([2, 3, 5])
+                if exact:
+                    # the refblock in front of the end of the refcount table is used up completely: whoever
+                    # allocates next has to enlarge the table
+                    # (L2 tables the fill allocates take clusters as well: the scenarios differ in where they stop)
+                    stop = rbn - 1 - ((i // 4) % 7)
                 while filled < stop:
                     steps.append({"op": "write", "gb": order[k] * bpc, "n": bpc})
                     filled += 1
@@ -272,7 +278,15 @@ def fam_growth(tier, seed, tag, nruns, conc=False, faults=False):
                     if len(cur) > len(best):
                         best = list(cur)
                 need = rbn - stop + rng.choice([3, 6])
-                if len(best) >= need:
+                if exact and len(best) > 80:
+                    # two single-cluster writers behind different L2 slices and a flush_meta
+                    grp = [{"op": "flush"}, {"op": "write", "gb": best[0] * bpc, "n": bpc}, {"op": "write", "gb": best[75] * bpc, "n": bpc}]
+                    rng.shuffle(grp)
+                    steps.append({"op": "par", "ops": grp})
+                    steps.append({"op": "flush"})
+                    k += 80
+                    order = [c for c in order if c not in (best[0], best[75])]
+                elif len(best) >= need:
                     big = {"op": "write", "gb": best[0] * bpc, "n": need * bpc}
                     used = set(best[:need])
                     order = [c for c in order[:k]] + [c for c in order[k:] if c not in used]
@@ -1318,7 +1332,7 @@ def check_C12(chk):
         steps += [{"op": "flush"}, {"op": "fsync"}] + rd + [{"op": "reopen"}] + rd
         scens.append(S.mk(f"c12-l1-{i}", geo, [img], steps))
     scens += fam_growth(chk.tier, chk.seed, "c12g", 8 if chk.tier == "quick" else 96)
-    gr_ = fam_growth(chk.tier, chk.seed, "c12c", 24 if chk.tier == "quick" else 120, conc=True)
+    gr_ = fam_growth(chk.tier, chk.seed, "c12c", 56 if chk.tier == "quick" else 168, conc=True)
     for s_ in gr_:
         s_["sched_sweep"] = 20 if chk.tier == "quick" else 60
     scens += gr_
